@@ -245,7 +245,7 @@ static mut BUF: [Event; CAP] = [Event::EMPTY; CAP];
 static mut N: usize = 0;
 static mut OVERFLOW: bool = false;
 static mut ACTIVE: bool = false;
-static mut ALLOW_STRAY_PORT_IO: bool = false;
+static mut ALLOW_STRAY: bool = false;
 static mut STRAY: usize = 0;
 static mut DEPTH: u32 = 0;
 static mut INSTALLED: bool = false;
@@ -496,14 +496,11 @@ unsafe extern "C" fn handler(sig: c_int, info: *mut siginfo_t, ctx: *mut c_void)
         fatal("memory fault (not a privileged instruction)", rip, addr);
     }
     if !ACTIVE {
-        // A port access that the compiler moved out of the observed call (an `asm!` block wrongly declared `pure`
-        // may be hoisted above or sunk below the volatile writes that delimit `run`): where the caller asked for it
-        // (C18), count it and emulate it, so that the call is reported with its missing / misplaced access instead
-        // of the harness dying. Everything else outside a window stays fatal.
-        let b0 = byte(rip, 0);
-        let b1 = byte(rip, 1);
-        let is_port_io = matches!(b0, 0xec..=0xef | 0xe4..=0xe7) || (b0 == 0x66 && matches!(b1, 0xec..=0xef | 0xe4..=0xe7));
-        if ALLOW_STRAY_PORT_IO && is_port_io {
+        // An instruction that the compiler moved out of the observed call (an `asm!` block wrongly declared `pure`
+        // may be hoisted above or sunk below the volatile writes that delimit `run`, merged with a twin or dropped):
+        // count it and emulate it, so that the protocol line of the call carries `stray <n>` and is reported with its
+        // missing / misplaced access, instead of the harness dying without a replay.
+        if ALLOW_STRAY {
             STRAY += 1;
         } else {
             fatal("privileged-instruction trap outside trap::run", rip, 0);
@@ -867,12 +864,12 @@ impl<T> Run<T> {
 }
 
 /// Run `f` with trapping enabled and return its result together with the recorded events.
-/// Tolerate (and count) port accesses trapped outside a `run` window; see the handler.
-pub fn allow_stray_port_io(on: bool) {
-    unsafe { core::ptr::write_volatile(addr_of_mut!(ALLOW_STRAY_PORT_IO), on) }
+/// Tolerate (and count) privileged instructions trapped outside a `run` window; see the handler.
+pub fn allow_stray(on: bool) {
+    unsafe { core::ptr::write_volatile(addr_of_mut!(ALLOW_STRAY), on) }
 }
 
-/// Port accesses trapped outside any `run` window since the last call.
+/// Instructions trapped outside any `run` window since the last call.
 pub fn take_stray() -> usize {
     unsafe {
         let n = core::ptr::read_volatile(addr_of!(STRAY));
